@@ -54,7 +54,7 @@ def knownDelegations : List (String × String × List String) := [
   ("LowRankRootAddedDiagLinearOperator", "_solve", ["cholesky_solve:U", "inverse:U", "matmul:U"]),
   ("SumKroneckerLinearOperator", "inv_quad_logdet", ["solve:C"]),
   ("SumKroneckerLinearOperator", "_solve", ["matmul:U", "solve:U"]),
-  ("TriangularLinearOperator", "solve", ["_solve:C", "broadcast_shapes:C", "expand:C", "solve:C", "solve_triangular:C"]),
+  ("TriangularLinearOperator", "solve", ["_matmul_broadcast_shape:C", "_solve:C", "expand:C", "solve:C", "solve_triangular:C"]),
   ("TriangularLinearOperator", "inv_quad_logdet", ["solve:C"]),
   ("TriangularLinearOperator", "_solve", ["solve:U"]),
   ("TriangularLinearOperator", "_cholesky_solve", ["_cholesky_solve:C", "solve:C"]),
